@@ -21,6 +21,8 @@ var c12NameSets = []c12Names{
 	{"dbZq1", "sysQw.bktQe.coQx7", []string{"auxKq1.partQ", "auxKq2", "auxKq3", "auxKq4"}, "dotted-collection"},
 	{"shopQ", "shopQ2", []string{"shopQ23", "shop", "auxKq3", "auxKq4"}, "prefixes-of-each-other"},
 	{"db-with space", "co\"quote\\", []string{"aux/slash", "auxKq2", "auxKq3", "auxKq4"}, "escapes"},
+	// names shaped like the tool's own pseudonyms under each replacement text of the flag sets (<replacement>_…)
+	{"REDACTED_ledgerQ", "REDACTED_0123456789abcdef", []string{customReplacement + "_archQ", "x_2024Q", "REDACTED_Qq", "_leadingQ"}, "pseudonym-shaped"},
 }
 
 // expected pseudonym of a namespace value: component-wise, via the tool's own pseudonym function
@@ -288,7 +290,7 @@ func c12Run(c *Ctx) {
 		}
 	}
 	for ni, ns := range c12NameSets {
-		if ni > 0 && !c.Thorough() && ni != 2 && ni != 3 {
+		if ni > 0 && !c.Thorough() && ni != 2 && ni != 3 && ni != 5 {
 			continue
 		}
 		o := GenOpts{DB: ns.db, Coll: ns.coll, AuxColls: ns.aux, LeafSet: 2}
